@@ -263,6 +263,8 @@ def build(cfg, provider_perm=None):
             m.setBC(lt, bc['L'][1], rt, bc['R'][1], el)
     if 'minComposition' in cfg:
         m.constraints.minComposition = cfg['minComposition']
+    if 'vonNeumann' in cfg:
+        m.constraints.vonNeumannThreshold = cfg['vonNeumann']
     if cfg.get('cache') is False:
         m.useCache(False)
     if 'hash_s' in cfg:
@@ -397,6 +399,8 @@ def gen_config(rng, model=None, real_ok=True):
         cfg['T'] = {'kind': rng.choice(['array', 'func']), 'times': [0.0, 1.0], 'temps': [T0, T0 + rng.choice([-50, 30, 80])], 'time_scale': True}
         if cfg['T']['kind'] == 'func':
             cfg['T']['grad'] = rng.choice([0.0, 20.0, -40.0]) / L
+    if rng.random() < 0.1:
+        cfg['vonNeumann'] = rng.choice([0.2, 0.45])
     if rng.random() < 0.25:
         cfg['cache'] = False
     elif rng.random() < 0.3:
